@@ -7,7 +7,7 @@ import casadi as ca
 import life
 from observe import observe, set_x, quiet
 
-OPS = ['subject_to', 'clear_constraints', 'add_objective', 'method', 'solver', 'set_T', 'set_t0', 'set_value',
+OPS = ['add_state', 'subject_to', 'clear_constraints', 'add_objective', 'method', 'solver', 'set_T', 'set_t0', 'set_value',
        'set_initial', 'sample', 'value', 'jacobian', 'solve', 'sol_sample', 'save']
 ARGS = {'subject_to': ['ka', 'kb'], 'method': ['MS2', 'MS3', 'SS2', 'DC2'], 'solver': ['ipopt', 'ipopt0', 'sqp'],
         'set_T': [1, 2], 'set_t0': [0, 1], 'set_value': [1, 2, 3], 'set_initial': [1, 2]}
@@ -36,20 +36,21 @@ def project(l):
     t_, xs0 = ca.Function('s', [o.vx, o.vp], [ts, xs])(o.x0, o.pvec)
     t_ = np.array(t_).reshape(-1); xs0 = np.array(xs0).reshape(-1)
     pval = int(round(float(ca.Function('p', [o.vx, o.vp], [quiet(ocp.value, l.ps)])(o.x0, o.pvec))))
-    return {'k0': rows.get('k0', 0), 'ka': rows.get('ka', 0) // per, 'kb': rows.get('kb', 0) // per, 'nobj': nobj,
+    return {'ext': len(l.x) - 1, 'k0': rows.get('k0', 0), 'ka': rows.get('ka', 0) // per, 'kb': rows.get('kb', 0) // per, 'nobj': nobj,
             'T': int(round(t_[-1] - t_[0])), 't0': int(round(t_[0])), 'pval': pval, 'guess': int(round(xs0[0])), 'meth': meth}
 
 
 def record(seed, length=14):
     rng = random.Random(seed)
     l = life.base()
-    ncons = 1; nobj = 0; has_sol = False
+    ncons = 1; nobj = 0; has_sol = False; ext = 0
     events = []
     for step in range(length):
         while True:
             op = rng.choice(OPS)
             if op == 'subject_to' and ncons >= 3: continue
             if op == 'add_objective' and nobj >= 2: continue
+            if op == 'add_state' and ext: continue
             if op == 'sol_sample' and not has_sol: continue
             break
         arg = rng.choice(ARGS[op]) if op in ARGS else ''
@@ -57,6 +58,7 @@ def record(seed, length=14):
         if op == 'subject_to' and outcome == 'ok': ncons += 1
         if op == 'clear_constraints': ncons = 0
         if op == 'add_objective': nobj += 1
+        if op == 'add_state': ext = 1
         if op == 'solve' and outcome == 'ok': has_sol = True
         ev = {'op': op, 'arg': arg, 'out': outcome, 'tflag': False, 'live': None, 'solver': 'unknown'}
         if outcome == 'ok':
@@ -72,7 +74,7 @@ def record(seed, length=14):
         else:
             ev['exc'] = info.get('exc')
         if ev['live'] is None:
-            ev['live'] = {'k0': 0, 'ka': 0, 'kb': 0, 'nobj': 0, 'T': 0, 't0': 0, 'pval': 0, 'guess': 0, 'meth': ''}
+            ev['live'] = {'ext': 0, 'k0': 0, 'ka': 0, 'kb': 0, 'nobj': 0, 'T': 0, 't0': 0, 'pval': 0, 'guess': 0, 'meth': ''}
         events.append(ev)
         if outcome == 'raise' and op != 'sol_sample': break
     return {'id': 'r%d' % seed, 'events': events}
